@@ -48,6 +48,7 @@ class Ctx(object):
         self.repo_root = repo_root
         self.repo = Repo(repo_root)
         self.contracts = all_contracts()
+        self.test_outcomes = {}
         self.timeout = 60 if tier == "quick" else 240
         self.outdir = os.path.join(VERIF, "out", prop if repo_root == "/repo" else "%s-scratch-%s" % (
             prop, re.sub(r"[^A-Za-z0-9]+", "", os.path.basename(os.path.normpath(repo_root)))[-12:]))
@@ -91,6 +92,8 @@ class Ctx(object):
             self.used_models |= ex.used_models
             self.used_contracts |= ex.used_contracts
             self.inlined |= ex.inlined
+            for k_, v_ in ex.test_outcomes.items():
+                self.test_outcomes.setdefault(k_, set()).update(v_)
             if closure:
                 for name in sorted(ex.used_contracts):
                     rel, qual = name.split("::", 1)
@@ -234,6 +237,19 @@ def run_property(prop, tier="quick", seed=0, repo_root=None, only=None):
             # bounded stand-in decides; never an alarm, never a silent pass (a DEGRADED line is printed)
             status["degraded"].append("%s unreached%s: %s" % (i["function"], " (generator error)" if i.get("crash") else "",
                                                              i["unreached"]))
+        # `if` tests that came out as one and the same constant on every explored path although they did not on the unchanged
+        # tree (const_tests_baseline.json): the executor may have lost a branch (a gap of a model, not a fact about the code)
+        one_sided = sorted("%s: %s is always %s" % (f_, t_, "true" if o_ == {"T"} else "false")
+                           for (f_, t_), o_ in ctx.test_outcomes.items() if o_ in ({"T"}, {"F"}))
+        try:
+            base_ct = json.load(open(os.path.join(VERIF, "const_tests_baseline.json"))).get(prop, [])
+        except Exception:
+            base_ct = None
+        ctx.one_sided = one_sided
+        if base_ct is not None and not only:
+            for x_ in one_sided:
+                if x_ not in base_ct:
+                    status["degraded"].append("branch test constant on every explored path (not so on the unchanged tree): %s" % x_)
         if not obs and not only:
             status["errors"].append("zero obligations generated")
         # bounded stand-in
